@@ -294,7 +294,12 @@ impl StateHandle {
         }
         .map_err(|_| FlexiLoggerError::Poison)?;
         flwb.assert_write_mode((*state).config().write_mode)?;
-        *state = flwb.try_build_state()?;
+        let new_state = flwb.try_build_state()?;
+        // a buffering writer swallows errors when it is dropped
+        state
+            .flush()
+            .unwrap_or_else(|e| eprint_err(ErrorCode::Flush, "flushing failed", &e));
+        *state = new_state;
         Ok(())
     }
 
